@@ -4,7 +4,12 @@ package utils
 
 // Contracts for the verification framework in /verif (comment-only file, build tag `verif`).
 
+// the maps a merged label map was built from (uninterpreted: defined by MergeLabels' contract)
+//@ specfn mergedFirst(m map[string]string) map[string]string
+//@ specfn mergedSecond(m map[string]string) map[string]string
+
 // MergeLabels builds a fresh map and touches nothing else.
 //@ trusted func MergeLabels
 //@   modifies nothing
 //@   ensures result != nil && fresh(result)
+//@   ensures len(labelsMaps) == 2 ==> mergedFirst(result) == labelsMaps[0] && mergedSecond(result) == labelsMaps[1]
